@@ -518,7 +518,7 @@ class BaseCurve(Intface_BaseCurve):
             raise ValueError
         temp_curve = self.__class__(newknotvector)
         error = temp_curve.fit_curve(self, nodes)
-        if tolerance and error > tolerance:
+        if tolerance is not None and error > tolerance:
             error_msg = "Cannot update knotvector cause error is "
             error_msg += f" {float(error):.2e} > {tolerance}"
             raise ValueError(error_msg)
